@@ -92,6 +92,19 @@ def run(F, rep, tier):
     g = F.fn("aranya_runtime::sync::requester::SyncRequester::get_sync_commands")
     cs = g.cmp_switches()
     sess = [c for c in cs if g.derives_from_field(c["a"], "session_id") or g.derives_from_field(c["b"], "session_id")]
+    if not sess:
+        # the check may live in the callers instead - then it must guard *every* call
+        callers = F.callers_of(g.path)
+        unguarded = []
+        for h, c in callers:
+            hs = [x for x in h.cmp_switches() if h.derives_from_field(x["a"], "session_id") or h.derives_from_field(x["b"], "session_id")]
+            if not any(x.get("eq") is not None and h.dominates(x["eq"], c.bb) for x in hs):
+                unguarded.append("%s (%s)" % (h.path.split("::")[-1], c.site()))
+        rep.check(bool(callers) and not unguarded, "get_sync_commands|session-check-on-every-entry", "K2 guarded-by",
+                  "get_sync_commands is reached only behind a session-id equality check at each of its %d call sites" % len(callers),
+                  "responses reach SyncRequester::get_sync_commands without a session-id check from %s: a response or push for a different session is ingested, "
+                  "advances next_message_index and changes the requester's state" % ", ".join(unguarded), g.site())
+        return
     if len(sess) != 1:
         rep.anchor_missing("get_sync_commands: session-id comparison not found (%d candidates)" % len(sess))
         return
